@@ -44,7 +44,8 @@ PF = gen.Profile(
     max_slots=6,
     container_deps=False,
 )
-PF_WHOLE = replace(PF, subslot=False, odd_eff=False, chain=False, alap_task=True, alternatives=True, container_deps=True, depth=3, dated_containers=True)
+PF_WHOLE = replace(PF, subslot=False, odd_eff=False, chain=False, alap_task=True, alternatives=True, container_deps=True, depth=3, dated_containers=True,
+                   container_work=True, milestones=True)
 
 
 def frame_violations(spec, obs, sc_idx=0):
